@@ -117,9 +117,23 @@ func verifRefEval(s string) verifRefNum {
 	return r
 }
 
+// long literals: a concrete prefix and suffix around the arbitrary bytes, so
+// that 64-bit and 128-bit boundaries of every base are inside the bound
+var verifNumTemplates = [][2]string{
+	{"", ""},
+	{"0x", "fffffffffffffff"},
+	{"0X", "0000000000000000"},
+	{"0b", "111111111111111111111111111111111111111111111111111111111111111"},
+	{"0o", "777777777777777777777"},
+	{"", "8446744073709551615"},
+	{"0x", "ffffffffffffffffffffffffffffffff"},
+	{"1", "000000000000000000000000000000000000Ki"},
+}
+
 func verifHarnessNumLiteralValue() {
 	n := verifParam("N", 4)
-	s := verifStringUpTo(n)
+	t := verifParam("T", 0)
+	s := verifNumTemplates[t][0] + verifStringUpTo(n) + verifNumTemplates[t][1]
 	one, tok := verifScanOne(s, veriftoken2.INT, veriftoken2.FLOAT)
 	if !one {
 		return
